@@ -101,13 +101,21 @@ def run (case impl : String) : String × String :=
     the TCP reply (that the TCP leg survives the stale pooled connection is C14 `stale_then_healthy_succeeds`). -/
 def seqModel (k : Nat) : List Leg := (List.range k).map fun i => (exchange i (.msg (1000 + i) true) (.msg (2000 + i) false)).result
 
+/-- The same run when the TCP server closes without replying during the first `f` exchanges: those callers get the
+    TCP leg's error, every later one the TCP reply — the upstream keeps no memory of a failed TCP leg. -/
+def seqModelF (f k : Nat) : List Leg := (List.range k).map fun i =>
+  (exchange i (.msg (1000 + i) true) (if i < f then .err else .msg (2000 + i) false)).result
+
 def runSeq (case impl : String) : String × String :=
-  match (kvNat (words case) "seq").map (· * ((kvNat (words case) "par").getD 1)) with
+  let par := (kvNat (words case) "par").getD 1
+  let f := ((kvNat (words case) "fail").getD 0) * par
+  match (kvNat (words case) "seq").map (· * par) with
   | some k =>
-    let out := "res=" ++ ",".intercalate ((seqModel k).map fun l => match l with | .msg _ false => "ok" | .msg _ true => "tc" | .err => "err")
+    let exp := (seqModelF f k).map fun l => match l with | .msg _ false => "ok" | .msg _ true => "tc" | .err => "err"
+    let out := "res=" ++ ",".intercalate exp
     let v := if impl == "panic" then "viol:panic"
       else match kvGet (words impl) "res" with
-        | some r => if (r.splitOn ",").all (· == "ok") ∧ (r.splitOn ",").length = k then "ok" else "viol"
+        | some r => if r.splitOn "," == exp then "ok" else "viol"
         | none => "unparsed"
     (out, v)
   | none => ("bad-case", "na")
